@@ -223,6 +223,45 @@ Qed.
 Theorem mul_restores_units : mul_keeps_units T = true.
 Proof. vm_compute. reflexivity. Qed.
 
+(* ---- ExprDomain.as_quantity ----------------------------------------------------------- *)
+(* each quantity name is dispatched to the as_<x>() that builds THAT quantity, and
+   'undefined' returns the expression itself *)
+Theorem as_quantity_dispatch_ok :
+  asq T Qundef = AsSelf /\
+  forall q, In q [Qvoltage; Qcurrent; Qadmittance; Qimpedance; Qtransfer; Qpower] -> asq T q = AsQ q.
+Proof.
+  split; [vm_compute; reflexivity|].
+  intros q H. simpl in H.
+  repeat (destruct H as [<-|H]; [vm_compute; reflexivity|]). contradiction.
+Qed.
+(* no name is dispatched to a different quantity (the squared quantities are refused) *)
+Definition asq_ok (q : quantity) : bool :=
+  match asq T q with AsQ q' => qeqb q' q | AsSelf => qeqb q Qundef | AsError => true end.
+Theorem as_quantity_never_changes_quantity : forall q, asq_ok q = true.
+Proof.
+  assert (H : forallb asq_ok all_quantities = true) by (vm_cast_no_check (eq_refl true)).
+  exact (forall_q _ H).
+Qed.
+(* hence re-applying a quantity gives, for every class, an expression of that quantity in
+   the same kind of domain with the default (SI) units of its class; likewise the
+   magnitude, the Hilbert transforms, phasor-ratio -> Laplace and phasor -> time *)
+Definition asq_model_ok (d : domain) (q0 q : quantity) : bool :=
+  let a := Op d q0 (def_units T d q0) VV in
+  let good r want := match r with
+                     | RK d' q' u => qeqb q' want && ueqb u (def_units T d' q')
+                     | RE _ => true | _ => false end in
+  (match asq T q with AsQ _ => good (as_quantity_model T a q) q | _ => true end)
+  && good (magnitude_model T a) q0 && good (pr_laplace_model T a) q0
+  && good (phasor_time_model T a) q0 && good (hilbert_model T a) q0.
+Theorem as_quantity_paths_keep_quantity : forall d q0 q, has_class T d = true -> asq_model_ok d q0 q = true.
+Proof.
+  assert (H : forallb (fun d => negb (has_class T d) ||
+              forallb (fun q0 => forallb (asq_model_ok d q0) all_quantities) all_quantities) all_domains = true)
+    by (vm_cast_no_check (eq_refl true)).
+  intros d q0 q Hd. pose proof (forall_d _ H d) as K. cbv beta in K. rewrite Hd in K. cbn [negb orb] in K.
+  exact (forall_q _ (forall_q _ K q0) q).
+Qed.
+
 (* ---- where the unit flags are read ------------------------------------------------- *)
 (* loose_units / check_units are consulted only by Expr.__compat_add__, canonical_units
    only by the printing code: products, quotients, powers and transforms cannot
@@ -273,6 +312,9 @@ Print Assumptions classmap_consistent.
 Print Assumptions classes_exist.
 Print Assumptions default_units_dim.
 Print Assumptions default_units_examples.
+Print Assumptions as_quantity_dispatch_ok.
+Print Assumptions as_quantity_never_changes_quantity.
+Print Assumptions as_quantity_paths_keep_quantity.
 Print Assumptions mul_restores_units.
 Print Assumptions quantity_flags_match_spec.
 Print Assumptions domain_flags_match_spec.
